@@ -421,8 +421,8 @@ def known_class(cls):
 
 def run(ctx):
     quick = ctx.tier == "quick"
-    n_surf, n_sd, n_poly, n_vol = (330, 50, 60, 110) if quick else (7000, 1000, 1000, 2200)
-    max_faces = 260 if quick else 500
+    n_surf, n_sd, n_poly, n_vol = (240, 40, 50, 90) if quick else (7000, 1000, 1000, 2200)
+    max_faces = 200 if quick else 500
     ctx.rule = ("surfaces from 18 seed kinds (triangle/quad/polygon faces, disks, annuli, tori, closed polyhedra, holes, "
                 "two components; renumbered, rotated, shuffled) with 0-4 editor operations in one block (at most 5 levels "
                 "of refinement, result <= %d faces); split_double_boundary_edges_triangles on strips/ears; polylines with "
@@ -482,7 +482,7 @@ def run(ctx):
         for kind, (enc, fn, ty) in ENC.items():
             idxs = [i for i, (c, o) in enumerate(zip(cases, obs)) if c["kind"] == kind and encodable(c, o)]
             terms = [enc(cases[i], obs[i]) for i in idxs]
-            shard = 24 if kind == "surf" else 60
+            shard = (16 if quick else 24) if kind == "surf" else 60
             r = ctx.run_cases(kind, HEADER, terms, fn, case_type=ty, shard=shard, timeout=900)
             bad[kind] = None if r is None else [idxs[j] for j in r]
             skipped = [i for i, (c, o) in enumerate(zip(cases, obs)) if c["kind"] == kind and not encodable(c, o)]
